@@ -1,5 +1,6 @@
 import Mochi.Model.Broker
 import Mochi.Lemmas.BrokerRetained
+import Mochi.Lemmas.BrokerReplay
 /-!
 # C05 — Retained store reflects the latest retained publish per topic
 
@@ -190,4 +191,126 @@ theorem C05_latest_wins_inline_seq (caps : Caps) (pre post : List Op) (topic pay
   rw [run_append_rk, run_cons_rk, C05_store_kept_run _ post topic hnw1 hpost]
   exact C05_accepted_inline_retained_publish_sets _ topic payload qos h hq hsh hra
 
+
+/-! ## The retained replay of a new subscription
+
+Stated for `publishRetainedToClient s i sub existed k` — the call `processSubscribe` makes for the `k`-th filter of an
+accepted SUBSCRIBE, in the state after the subscription is filed (filing changes neither `rmsgs` nor the index's retained
+store).  Restrictions: a plain (not shared) filter, a QoS 0 subscription (nothing is filed in-flight), a live client that
+uses no topic aliases (`ReplayClient`: MQTT 5 or MQTT 3), nothing retained under the empty topic (a will topic is not
+validated, `hne`), `StoredPub s` (decidable: every stored packet is a PUBLISH with the retain flag under its own topic —
+true of everything `processPublish` / `sendLWT` store; not proved here as an invariant of all histories).  The index
+hypotheses `RetIdxOK`, `RetKeysOK` hold after EVERY history (`RetIdxOK_run`, `RetKeys_run`). -/
+
+/-- **2** the PUBLISH packets written by the replay are exactly the copies of the stored retained messages whose topic
+    the filter matches (`specMatch`) and which the client may read (not excluded by No Local, read ACL) — for Retain
+    Handling 0, and Retain Handling 1 when the subscription is new -/
+theorem C05_subscribe_replays_exactly (s : Server) (i : Nat) (sub : Sub) (ex : Bool) (k : Nat) (hc : ReplayClient s i)
+    (hq : sub.qos = 0) (hsp : StoredPub s) (hns : isSharedFilter sub.filter = false)
+    (hrh : sub.rh = 0 ∨ (sub.rh = 1 ∧ ex = false))
+    (hidx : RetIdxOK (core s)) (hkeys : RetKeysOK (core s)) (hne : assocGet s.rmsgs [] = none)
+    (hf : sub.filter ≠ []) (hok : specLevelsOK (splitLevels sub.filter) = true) (o : Out) :
+    (publishRetainedToClient s i sub ex k).1 = s ∧
+    (o ∈ (publishRetainedToClient s i sub ex k).2 ↔
+      ∃ t pk, assocGet s.rmsgs t = some pk ∧ specMatch (splitLevels sub.filter) t = true ∧
+        replayGate s i (withIdent sub) pk = true ∧ o = replayPacket s i (withIdent sub) pk) := by
+  have hrh' : ((sub.rh == 1 && ex) || sub.rh == 2) = false := by
+    rcases hrh with h | ⟨h, h'⟩
+    · rw [h]; rfl
+    · rw [h, h']; rfl
+  refine ⟨?_, replay_mem_iff s i sub ex k hc hq hsp hns hrh' hidx hkeys hne hf hok o⟩
+  rw [publishRetainedToClient_replay s i sub ex k hc hq hsp hns hrh']
+
+/-- each replayed copy carries the retain flag, the stored topic, payload and origin -/
+theorem C05_replayed_copy_fields (s : Server) (i : Nat) (sub : Sub) (t : Str) (pk : Msg) (hsp : StoredPub s)
+    (hg : assocGet s.rmsgs t = some pk) :
+    ∃ m me, replayPacket s i sub pk = .wrote (getObj s i).conn (.publish (getObj s i).ver m me) ∧
+      m.retain = true ∧ m.topic = t ∧ m.payload = pk.payload ∧ m.origin = pk.origin := by
+  obtain ⟨_, h2, h3⟩ := hsp _ (assocGet_some_mem _ _ _ hg)
+  exact ⟨_, _, rfl, h2, h3, rfl, rfl⟩
+
+/-- … one per retained message: the replay is the image of the (permuted) list `Messages(filter)` returns, whose topics
+    are pairwise distinct -/
+theorem C05_subscribe_replays_each_once (s : Server) (i : Nat) (sub : Sub) (ex : Bool) (k : Nat) (hc : ReplayClient s i)
+    (hq : sub.qos = 0) (hsp : StoredPub s) (hns : isSharedFilter sub.filter = false)
+    (hrh : ((sub.rh == 1 && ex) || sub.rh == 2) = false)
+    (hidx : RetIdxOK (core s)) (hne : assocGet s.topics.retained [] = none)
+    (hok : specLevelsOK (splitLevels sub.filter) = true) :
+    (publishRetainedToClient s i sub ex k).2 =
+      (permuteBy (permDigit s.permSeed k) (messages s.topics sub.filter)).flatMap (replayOne s i (withIdent sub)) ∧
+    ((permuteBy (permDigit s.permSeed k) (messages s.topics sub.filter)).map (·.topic)).Nodup := by
+  refine ⟨by rw [publishRetainedToClient_replay s i sub ex k hc hq hsp hns hrh], ?_⟩
+  exact ((permuteBy_perm _ _).map _).nodup_iff.mpr (messages_nodup_of_RetIdxOK s hidx hne sub.filter hok)
+
+/-- Retain Handling 2: none; Retain Handling 1: none if the subscription existed; a shared filter: none -/
+theorem C05_subscribe_replays_none (s : Server) (i : Nat) (sub : Sub) (ex : Bool) (k : Nat)
+    (h : isSharedFilter sub.filter = true ∨ sub.rh = 2 ∨ (sub.rh = 1 ∧ ex = true)) :
+    publishRetainedToClient s i sub ex k = (s, []) := replay_none s i sub ex k h
+
+/-! ## Non-vacuity (closed histories, by `decide`) -/
+
+/-- an MQTT 5 publisher retains payload 1, then payload 2 on topic `a` (Message Expiry Interval 10) -/
+def c05History : List Op :=
+  [.connect 1 { ver := 5, id := [112] },
+   .recv 1 (.publish 0 false true 0 [97] [1] 10 none),
+   .recv 1 (.publish 0 false true 0 [97] [2] 10 none)]
+
+/-- the subscriber's ops: connect, SUBSCRIBE `#` -/
+def c05Sub : Op := .recv 2 (.subscribe 1 0 [{ filter := [35] }])
+
+def isPubOf (conn : Nat) (topic payload : Str) (retain : Bool) (o : Out) : Bool :=
+  match o with
+  | .wrote c (.publish _ m _) => c == conn && m.topic == topic && m.payload == payload && m.retain == retain
+  | _ => false
+
+def isAnyPub (o : Out) : Bool :=
+  match o with
+  | .wrote _ (.publish ..) => true
+  | _ => false
+
+set_option maxRecDepth 100000 in
+theorem C05_C25_nonvacuity :
+    -- latest wins: the store holds payload 2 (origin `p`, expiry time `NOW + 10`)
+    (assocGet (run (init {}) c05History).rmsgs [97]).map (fun m => (m.payload, m.origin, m.expiry, m.retain))
+      = some ([2], [112], NOW + 10, true) ∧
+    -- an empty payload clears the topic
+    assocGet (run (init {}) (c05History ++ [.recv 1 (.publish 0 false true 0 [97] [] 0 none)])).rmsgs [97] = none ∧
+    -- a new subscriber is replayed exactly that message, with the retain flag
+    ((step (run (init {}) (c05History ++ [.connect 2 { ver := 5, id := [115] }])) c05Sub).2.filter isAnyPub).map
+        (isPubOf 2 [97] [2] true) = [true] ∧
+    -- housekeeping at `NOW + 20 > NOW + 10` removes it, and the later subscriber is replayed nothing
+    (run (init {}) (c05History ++ [.tick "retained" (NOW + 20)])).rmsgs = [] ∧
+    (step (run (init {}) (c05History ++ [.tick "retained" (NOW + 20), .connect 2 { ver := 5, id := [115] }])) c05Sub).2.filter
+        isAnyPub = [] ∧
+    -- housekeeping at `NOW + 10` (not strictly later) keeps it
+    (run (init {}) (c05History ++ [.tick "retained" (NOW + 10)])).rmsgs.length = 1 ∧
+    -- the side conditions of the replay theorem hold in that state
+    StoredPub (run (init {}) (c05History ++ [.connect 2 { ver := 5, id := [115] }])) := by
+  decide
+
+/-- the general theorems instantiated: the CONNECT and the SUBSCRIBE of the subscriber leave the store at `a` alone -/
+example : assocGet (run (run (init {}) c05History) [.connect 2 { ver := 5, id := [115] }, c05Sub]).rmsgs [97] =
+    assocGet (run (init {}) c05History).rmsgs [97] := by
+  refine C05_store_kept_run _ _ [97] (C05_will_invariant_run {} c05History [97] ?_) ?_
+  · intro op hop
+    simp only [c05History, List.mem_cons, List.not_mem_nil, or_false] at hop
+    rcases hop with rfl | rfl | rfl
+    · intro w hw; cases hw
+    · trivial
+    · trivial
+  · intro op hop
+    simp only [c05Sub, List.mem_cons, List.not_mem_nil, or_false] at hop
+    rcases hop with rfl | rfl
+    · intro w hw; cases hw
+    · trivial
+
 end Mochi.Broker
+
+#print axioms Mochi.Broker.C05_store_changes_only_by
+#print axioms Mochi.Broker.C05_accepted_retained_publish_sets
+#print axioms Mochi.Broker.C05_accepted_inline_retained_publish_sets
+#print axioms Mochi.Broker.C05_latest_wins_seq
+#print axioms Mochi.Broker.C05_latest_wins_inline_seq
+#print axioms Mochi.Broker.C05_subscribe_replays_exactly
+#print axioms Mochi.Broker.C05_subscribe_replays_each_once
+#print axioms Mochi.Broker.C05_C25_nonvacuity
